@@ -15,11 +15,12 @@ use std::collections::{BTreeMap, BTreeSet};
 use vx_bounded::cli;
 
 // ------------------------------------------------------------------------------------------------ schema (fixed)
-const SCHEMA: &str = "type Query { n: Int! m: Int user: User users: [User!] maybe: [User]! thing: Thing things: [Thing!]! node: Node deep: [[Int!]]! }\n\
+const SCHEMA: &str = "type Query { n: Int! m: Int user: User users: [User!] maybe: [User]! thing: Thing things: [Thing!]! node: Node deep: [[Int!]]! entity: Entity entities: [Entity!]! }\n\
 interface Node { id: ID! }\n\
 type User implements Node { id: ID! name: String friend: User posts: [Post!]! }\n\
 type Post implements Node { id: ID! title: String author: User! }\n\
-union Thing = User | Post\n";
+union Thing = User | Post\n\
+interface Entity implements Node { id: ID! label: String }\ntype Org implements Entity & Node { id: ID! label: String }\ntype Tag implements Node { id: ID! }\n";
 
 #[derive(Clone, Debug, PartialEq)]
 enum GTy {
@@ -47,7 +48,10 @@ fn field_type(parent: &str, field: &str) -> Option<GTy> {
         ("Query", "things") => nn(l(nn(n("Thing")))),
         ("Query", "node") => n("Node"),
         ("Query", "deep") => nn(l(l(nn(n("Int"))))),
-        ("Node" | "User" | "Post", "id") => nn(n("ID")),
+        ("Query", "entity") => n("Entity"),
+        ("Query", "entities") => nn(l(nn(n("Entity")))),
+        ("Node" | "User" | "Post" | "Entity" | "Org" | "Tag", "id") => nn(n("ID")),
+        ("Entity" | "Org", "label") => n("String"),
         ("User", "name") => n("String"),
         ("User", "friend") => n("User"),
         ("User", "posts") => nn(l(nn(n("Post")))),
@@ -61,7 +65,11 @@ fn possible_types(t: &str) -> Vec<&'static str> {
         "User" => vec!["User"],
         "Post" => vec!["Post"],
         "Query" => vec!["Query"],
-        "Node" | "Thing" => vec!["User", "Post"],
+        "Org" => vec!["Org"],
+        "Tag" => vec!["Tag"],
+        "Entity" => vec!["Org"],
+        "Node" => vec!["User", "Post", "Org", "Tag"],
+        "Thing" => vec!["User", "Post"],
         _ => vec![],
     }
 }
@@ -657,6 +665,12 @@ fn operations(thorough: bool) -> Vec<(String, Op)> {
     add("interface through a named fragment on the interface and on an implementor", vec![], vec![fs("node", vec![Sel::Spread { name: "N", dirs: Dirs::default() }, Sel::Spread { name: "P", dirs: Dirs::default() }])], vec![("N", "Node", vec![f("id")]), ("P", "Post", vec![f("title"), fs("author", vec![f("id")])])]);
     add("union with a variable on one branch", vec!["a"], vec![fs("thing", vec![with(on("User", vec![f("name")]), skip(a())), on("Post", vec![f("title")]), f("__typename")])], vec![]);
     add("interface fragment inside a union", vec![], vec![fs("things", vec![on("Node", vec![f("id")]), on("Post", vec![f("title")])])], vec![]);
+    // an interface that implements an interface; an object that implements only the parent interface
+    add("a field of an interface that implements another", vec![], vec![fs("entity", vec![f("__typename"), f("id"), f("label")])], vec![]);
+    add("parent-interface and object conditions inside the child interface", vec![], vec![fs("entity", vec![f("id"), on("Node", vec![f("__typename")]), on("Org", vec![f("label")])])], vec![]);
+    add("child-interface condition inside the parent interface", vec![], vec![fs("node", vec![f("id"), on("Entity", vec![f("label")]), f("__typename")])], vec![]);
+    add("conditions on an object that implements only the parent interface", vec![], vec![fs("node", vec![on("Tag", vec![f("id")]), on("Entity", vec![f("label")])]), fs("entity", vec![on("Node", vec![f("id")])])], vec![]);
+    add("a fragment on the child interface with a variable, over a list", vec!["a"], vec![fs("entities", vec![Sel::Spread { name: "E", dirs: Dirs::default() }])], vec![("E", "Entity", vec![f("id"), with(f("label"), skip(a()))])]);
     // merging of selection sets
     add("the same field twice with different sub-selections", vec![], vec![fs("user", vec![f("id")]), fs("user", vec![f("name")])], vec![]);
     add("a field directly and through a fragment", vec![], vec![fs("user", vec![f("id"), Sel::Spread { name: "F", dirs: Dirs::default() }])], vec![("F", "User", vec![f("id"), f("name")])]);
@@ -792,7 +806,7 @@ fn main() {
         // C02, last clause: every object type declares __typename as its own name and every field of the schema type,
         // so no selected key is dropped by the utility type
         let mut decl_bad = false;
-        for (ty, fields) in [("Query", vec!["n", "m", "user", "users", "maybe", "thing", "things", "node", "deep"]), ("User", vec!["id", "name", "friend", "posts"]), ("Post", vec!["id", "title", "author"])] {
+        for (ty, fields) in [("Query", vec!["n", "m", "user", "users", "maybe", "thing", "things", "node", "deep", "entity", "entities"]), ("User", vec!["id", "name", "friend", "posts"]), ("Post", vec!["id", "title", "author"]), ("Org", vec!["id", "label"]), ("Tag", vec!["id"])] {
             let want: BTreeSet<String> = fields.iter().map(|f| f.to_string()).chain(["__typename".to_string()]).collect();
             if decl.get(ty) != Some(&want) {
                 fail("C02: an object type of the schema declaration does not declare exactly __typename and the fields of the schema type".into(), format!("{ty}: declared keys {:?}", decl.get(ty)), String::new());
